@@ -48,28 +48,10 @@ Proof.
     exfalso. eapply U. reflexivity.
 Qed.
 
-Theorem gen_add_edge_agrees : forall u (orc : nat -> nat -> list key) upd xs s e,
+Lemma add_edge_tail_wrap : forall u (orc : nat -> nat -> list key) upd xs s e st1,
   gh_inv xs -> upd_ok u (orc 0%nat) upd ->
-  match E.add_edge upd xs s e false false with
-  | AOk xs' => add_edge u false orc (x_st xs) s e = (x_st xs', true) /\ gh_inv xs'
-  | AFailPlain => add_edge u false orc (x_st xs) s e = (x_st xs, false)
-  | AFailSticky => add_edge u false orc (x_st xs) s e = (set_err (x_st xs), false)
-  | AOutside => False
-  end.
-Proof.
-  intros u orc upd xs s e I U. unfold E.add_edge, add_edge, update_sel, x_has_node, x_has_ctrl.
-  destruct (g_err (x_st xs)); [reflexivity|].
-  destruct (g_compiled (x_st xs)); [reflexivity|].
-  cbn [andb negb].
-  destruct (N.eqb s kEND); [reflexivity|].
-  destruct (N.eqb e kSTART); [reflexivity|].
-  destruct (negb (has_node (x_st xs) s) && negb (N.eqb s kSTART)); [reflexivity|].
-  destruct (negb (has_node (x_st xs) e) && negb (N.eqb e kEND)); [reflexivity|].
-  destruct (mem_pair (s, e) (g_ctrl (x_st xs))); [reflexivity|].
-  cbv zeta.
-  pose proof (marks_are_mark_ends (set_ctrl (x_st xs) (g_ctrl (x_st xs) ++ [(s, e)])) s e) as M. simpl in M.
-  set (st1 := mark_ends (set_ctrl (x_st xs) (g_ctrl (x_st xs) ++ [(s, e)])) s e) in *.
-  assert (T : forall xs1, x_st xs1 = st1 -> x_gh xs1 = x_gh xs ->
+  forall xs1, x_st xs1 = st1 -> x_gh xs1 = x_gh xs ->
+    g_in st1 = g_in (x_st xs) -> g_out st1 = g_out (x_st xs) -> g_nodes st1 = g_nodes (x_st xs) ->
      match (if x_has_data xs1 s e then AFailSticky
             else match upd (x_add_tvm xs1 s e) with None => AFailSticky | Some xs2 => AOk (x_add_data xs2 s e) end) with
      | AOk xs' =>
@@ -90,15 +72,40 @@ Proof.
                | _ => (set_err (x_st xs), false)
                end) = (set_err (x_st xs), false)
      | AOutside => False
-     end).
-  { intros xs1 E1 G1.
-    assert (I1 : gh_inv xs1).
-    { apply (gh_inv_frame xs); auto; rewrite E1; reflexivity. }
-    pose proof (add_edge_tail_agrees u (orc 0%nat) upd (x_st xs) xs1 s e I1 U) as A. rewrite E1 in A.
-    destruct (if x_has_data xs1 s e then AFailSticky
-              else match upd (x_add_tvm xs1 s e) with None => AFailSticky | Some xs2 => AOk (x_add_data xs2 s e) end);
-      [exact A | destruct A | exact A | destruct A]. }
-  destruct (N.eqb s kSTART), (N.eqb e kEND); apply T; try reflexivity; simpl; exact M.
+     end.
+Proof.
+  intros u orc upd xs s e st1 I U xs1 E1 G1 A1 A2 A3.
+  assert (I1 : gh_inv xs1).
+  { apply (gh_inv_frame xs); auto; rewrite E1; assumption. }
+  pose proof (add_edge_tail_agrees u (orc 0%nat) upd (x_st xs) xs1 s e I1 U) as A. rewrite E1 in A.
+  destruct (if x_has_data xs1 s e then AFailSticky
+            else match upd (x_add_tvm xs1 s e) with None => AFailSticky | Some xs2 => AOk (x_add_data xs2 s e) end);
+    [exact A | destruct A | exact A | destruct A].
+Qed.
+
+Theorem gen_add_edge_agrees : forall u (orc : nat -> nat -> list key) upd xs s e,
+  gh_inv xs -> upd_ok u (orc 0%nat) upd ->
+  match E.add_edge upd xs s e false false with
+  | AOk xs' => add_edge u false orc (x_st xs) s e = (x_st xs', true) /\ gh_inv xs'
+  | AFailPlain => add_edge u false orc (x_st xs) s e = (x_st xs, false)
+  | AFailSticky => add_edge u false orc (x_st xs) s e = (set_err (x_st xs), false)
+  | AOutside => False
+  end.
+Proof.
+  intros u orc upd xs s e I U. unfold E.add_edge, add_edge, update_sel, x_has_node, x_has_ctrl.
+  destruct (g_err (x_st xs)); [reflexivity|].
+  destruct (g_compiled (x_st xs)); [reflexivity|].
+  cbn [andb negb orb].
+  destruct (N.eqb s kEND); cbn [andb negb orb]; [reflexivity|].
+  destruct (N.eqb e kSTART); cbn [andb negb orb]; [reflexivity|].
+  destruct (has_node (x_st xs) s) eqn:Hs; destruct (N.eqb s kSTART) eqn:Es; cbn [andb negb orb]; try reflexivity;
+  (destruct (has_node (x_st xs) e) eqn:Hd; destruct (N.eqb e kEND) eqn:Ee; cbn [andb negb orb]; try reflexivity);
+  (destruct (mem_pair (s, e) (g_ctrl (x_st xs))); [reflexivity|]);
+  (cbv zeta;
+   pose proof (marks_are_mark_ends (set_ctrl (x_st xs) (g_ctrl (x_st xs) ++ [(s, e)])) s e) as M; simpl in M;
+   rewrite ?Es, ?Ee in M;
+   set (st1 := mark_ends (set_ctrl (x_st xs) (g_ctrl (x_st xs) ++ [(s, e)])) s e) in *;
+   apply (add_edge_tail_wrap u orc upd xs s e st1 I U); try reflexivity; simpl; exact M).
 Qed.
 
 (* non-vacuity on the state of GenAgreeC07Validate: START -> passthrough node 2 is accepted (and types
